@@ -87,6 +87,8 @@ def gen_cfg(seed, index, tier):
     m["strength"] = rng.choice([0.3, 0.6, 0.9])
     m["mix"] = rng.choice([0.0, 0.1, 0.3])
     m["jax_seed"] = rng.randrange(1, 2**20)
+    # the library accepts a one-body matrix that is not exactly symmetric and symmetrises it
+    m["h1_antisym"] = rng.choice([0.0, 0.0, 0.05]) if m.get("trial_kind") != "multislater" else 0.0
     if m["kind"] == "perm":
         m["spin_dep"] = m["wt"] == "unrestricted" and rng.random() < 0.6
     if m["kind"] in ("steps", "perm"):
@@ -176,8 +178,17 @@ def build_pair(cfg, n_batch=None):
     b = lab.build_system(_spec(cfg, "unrestricted", n_batch), harness=False)
     c = a.wave_data["mo_coeff"]
     b.wave_data = {"mo_coeff": [c, c], "rdm1": jnp.array(a.wave_data["rdm1"])}
-    hd = b.ham.build_measurement_intermediates(dict(b.ham_data_raw), b.trial, b.wave_data)
-    b.ham_data = b.ham.build_propagation_intermediates(hd, b.prop, b.trial, b.wave_data)
+    if cfg.get("h1_antisym"):
+        rs = np.random.RandomState((cfg["ham_seed"] + 31) % (2**32 - 1))
+        k = rs.normal(size=(cfg["norb"], cfg["norb"]))
+        anti = cfg["h1_antisym"] * (k - k.T)
+        for s_ in (a, b):
+            h1 = np.asarray(s_.ham_data_raw["h1"])
+            s_.ham_data_raw = dict(s_.ham_data_raw)
+            s_.ham_data_raw["h1"] = jnp.array(h1 + anti[None])
+    for s_ in (a, b):
+        hd = s_.ham.build_measurement_intermediates(dict(s_.ham_data_raw), s_.trial, s_.wave_data)
+        s_.ham_data = s_.ham.build_propagation_intermediates(hd, s_.prop, s_.trial, s_.wave_data)
     return a, b
 
 
